@@ -69,6 +69,9 @@ pub struct ElfSpec {
 }
 #[derive(Clone, Default)]
 pub struct Built {
+    /// > 0: typed views (notes / relocations / string tables) are only asked for ranges up to this size - a
+    /// megabyte of zeros read as notes is tens of thousands of records that judge nothing new
+    pub cap_views: u64,
     pub bytes: Vec<u8>,
     pub fields: Vec<(usize, usize, String)>,
     pub sec_names: Vec<Vec<u8>>,
@@ -237,7 +240,7 @@ pub fn layout(spec: &mut ElfSpec, r: &mut Rng) -> Built {
             bytes[o..o + e.len()].copy_from_slice(&e);
         }
     }
-    Built { bytes, fields, sec_names: spec.secs.iter().map(|s| s.name.clone()).collect(), sym_names: vec![], nversym: 0 }
+    Built { cap_views: 0, bytes, fields, sec_names: spec.secs.iter().map(|s| s.name.clone()).collect(), sym_names: vec![], nversym: 0 }
 }
 
 pub fn notes_bytes(r: &mut Rng, little: bool, lay: usize, cnt: u64) -> Vec<u8> {
@@ -574,7 +577,11 @@ fn mutate_shdr(h: &Value, r: &mut Rng, flen: u64) -> Value {
         0 => { m["sh_offset"] = w8(pickv(r)); }
         1 => { m["sh_size"] = w8(pickv(r)); }
         2 => { m["sh_offset"] = w8(pickv(r)); m["sh_size"] = w8(pickv(r)); }
-        3 => { m["sh_type"] = w4(*r.pick(&[0u32, 1, 3, 4, 7, 8, 9, 11])); }
+        3 => {
+            m["sh_type"] = w4(*r.pick(&[0u32, 1, 3, 4, 7, 8, 9, 11]));
+            // (a megabyte of zeros retyped as notes / relocations is tens of thousands of records: keep retyped ranges short)
+            if rd_w(&m["sh_size"]) > 65536 { m["sh_size"] = w8(flen.min(4096)); }
+        }
         _ => { let f = rd_w(&m["sh_flags"]); m["sh_flags"] = w8(f ^ SHF_COMPRESSED); }
     }
     m
@@ -585,7 +592,10 @@ fn mutate_phdr(h: &Value, r: &mut Rng, flen: u64) -> Value {
     match r.below(4) {
         0 => { m["p_offset"] = w8(pickv(r)); }
         1 => { m["p_filesz"] = w8(pickv(r)); }
-        2 => { m["p_type"] = w4(*r.pick(&[0u32, 1, 2, 4, 6])); }
+        2 => {
+            m["p_type"] = w4(*r.pick(&[0u32, 1, 2, 4, 6]));
+            if rd_w(&m["p_filesz"]) > 65536 { m["p_filesz"] = w8(flen.min(4096)); }
+        }
         _ => { m["p_memsz"] = w8(pickv(r)); }
     }
     m
@@ -621,6 +631,7 @@ pub fn sweep(r: &mut Rng, x: &mut Exec, sink: &mut Sink, b: &Built, open_ev: &Va
         for hv in variants {
             let ty = rd_w(&hv["sh_type"]) as u32;
             let mut o = q("section_data"); o["shdr"] = hv.clone(); sink.run(x, &o);
+            if b.cap_views > 0 && rd_w(&hv["sh_size"]) > b.cap_views && ty != 8 { continue; }
             let views: Vec<&str> = match ty {
                 SHT_STRTAB => vec!["section_data_as_strtab", "section_data_as_notes"],
                 SHT_REL => vec!["section_data_as_rels", "section_data_as_relas"],
@@ -638,6 +649,7 @@ pub fn sweep(r: &mut Rng, x: &mut Exec, sink: &mut Sink, b: &Built, open_ev: &Va
         if r.chance(1, 3) { variants.push(mutate_phdr(h, r, flen)); }
         for hv in variants {
             if !stream { let mut o = q("segment_data"); o["phdr"] = hv.clone(); sink.run(x, &o); }
+            if b.cap_views > 0 && rd_w(&hv["p_filesz"]) > b.cap_views && rd_w(&hv["p_type"]) == 4 { continue; }
             let mut o = q("segment_data_as_notes"); o["phdr"] = hv.clone(); sink.run(x, &o);
         }
     }
@@ -1053,7 +1065,7 @@ pub fn prefix_family(r: &mut Rng, n: u64, x: &mut Exec, sink: &mut Sink, every: 
             let evs = sink.run(x, &json!({"op":"open","es":es,"fileslot":"file"}));
             // (the length below only bounds the sizes of the caller-made header variants: typed views over a megabyte of
             //  zeros are thousands of records, which judge nothing new and take TLC minutes)
-            let pb = Built { bytes: full[..c.min(4096)].to_vec(), sec_names: b.sec_names.clone(), sym_names: b.sym_names.clone(), nversym: b.nversym, ..Default::default() };
+            let pb = Built { cap_views: if big { 4096 } else { 0 }, bytes: full[..c.min(4096)].to_vec(), sec_names: b.sec_names.clone(), sym_names: b.sym_names.clone(), nversym: b.nversym, ..Default::default() };
             if let Some(ev) = evs.first() { sweep(r, x, sink, &pb, ev, "q", true); }
             // the same prefix through the stream parser (the property names both)
             if big || (!every && r.chance(1, 3)) {
@@ -1070,7 +1082,7 @@ pub fn prefix_family(r: &mut Rng, n: u64, x: &mut Exec, sink: &mut Sink, every: 
             sink.run(x, &sparse_buf_op("full", &ext));
             sink.run(x, &sparse_buf_op("file", &full));
             let evs = sink.run(x, &json!({"op":"open","es":es,"fileslot":"file"}));
-            let bb = Built { bytes: full[..full.len().min(4096)].to_vec(), sec_names: b.sec_names.clone(), sym_names: b.sym_names.clone(), nversym: b.nversym, ..Default::default() };
+            let bb = Built { cap_views: if big { 4096 } else { 0 }, bytes: full[..full.len().min(4096)].to_vec(), sec_names: b.sec_names.clone(), sym_names: b.sym_names.clone(), nversym: b.nversym, ..Default::default() };
             if let Some(ev) = evs.first() { sweep(r, x, sink, &bb, ev, "q", true); }
         }
     }
